@@ -16,7 +16,7 @@ def B(cases, seconds, **kw):
 PROPS = {
  "C01": {
   "level": "exploration", "design_ref": "DESIGN.md §5 P-C01",
-  "technique": "seeded simulation: real drc plans the change, the script is executed command by command on an executable ASA device model; final-state refinement check against the target + re-compare",
+  "technique": "seeded simulation: real drc plans the change, the script is executed command by command on an executable ASA device model; final-state refinement check against the target + re-compare; one accepted non-empty case in six additionally as a complete simulated approve session (login variants, tape-drawn chunking and latency) whose device must end equivalent, saved and recorded OK",
   "level_text": "Seeded search over (device state, target) pairs; every emitted script is executed on a stateful ASA model and the resulting managed view must equal the target's, and a second real compare must be empty. Sampling, not proof; the schedule/fault dimension does not influence this property (input-quantified).",
   "level_note": "Trusts the ASA node model and the canonical-view oracle in /verif/sim/cisco; covers ACLs, object-groups, access-group bindings and routes (VPN object families only where the generator emits them).",
   "rule": "case = (device config A derived from target B by seeded edit operators, or drawn independently); non-trivial = tool accepted the pair and emitted a non-empty script; distinct = hash of (device text, target text)",
@@ -25,7 +25,7 @@ PROPS = {
  },
  "C02": {
   "level": "exploration", "design_ref": "DESIGN.md §5 P-C02",
-  "technique": "seeded simulation: real drc plans the change, the script (resequence, numbered inserts/deletes, bindings, routes) is executed on an executable IOS device model; block-multiset ACL equivalence + re-compare",
+  "technique": "seeded simulation: real drc plans the change, the script (resequence, numbered inserts/deletes, bindings, routes) is executed on an executable IOS device model; block-multiset ACL equivalence + re-compare; one case in six additionally as a complete simulated approve session under the reload guard",
   "level_text": "Seeded search over IOS (device, target) pairs; numbered ACL commands are executed with real sequence-number arithmetic on the IOS model; the resulting filter (runs of same-action entries as multisets) and routes must equal the target's and the second compare must be empty. Sampling, not proof.",
   "level_note": "Trusts the IOS node model; log options are not part of the compared filter semantics because the statement speaks about filtering.",
   "rule": "as C01 with the IOS generator; non-trivial = accepted and non-empty script; distinct = hash of (device text, target text)",
@@ -52,9 +52,9 @@ PROPS = {
  },
  "C14": {
   "level": "exploration", "design_ref": "DESIGN.md §5 P-C14",
-  "technique": "seeded simulation with per-step invariant: after each executed script step first-match evaluation of every bound ACL over a 125-packet universe, and route coverage per destination, compared with the old and the new state",
+  "technique": "seeded simulation with per-step invariant: after each executed script step first-match evaluation of every bound ACL over a 125-packet universe, and route coverage per destination, compared with the old state and the target; Linux route sets: 'ip route add/del' transactions executed step by step on a kernel-like table",
   "level_text": "Each (old,new) pair is decided exactly over the enumerated packet universe at every step; the search is over pairs. Joined two-command lines are one atomic step, object-group membership edits are excluded exactly as the statement says.",
-  "level_note": "Trusts the node model's ACL arithmetic and the entry parser of the oracle (generator vocabulary: ip/tcp/udp/icmp, host/net/any/group, eq/range).",
+  "level_note": "Trusts the node model's ACL arithmetic and the entry parser of the oracle (generator vocabulary: ip/tcp/udp/icmp, host/net/any/group, eq/range). ASA, IOS (ACLs and routes), Linux (routes).",
   "rule": "case = cisco pair; non-trivial = accepted, non-empty script; distinct = hash of texts",
   "quick": B(12000, 40), "thorough": B(300000, 900),
   "real": REAL_PLAN, "stubs": STUB_PLAN, "assumptions": ASSUME_NODE, "min_nontrivial": 50,
@@ -87,7 +87,7 @@ PROPS.update({
  },
  "C11": {
   "level": "fault_enumeration", "design_ref": "DESIGN.md §5 P-C11",
-  "technique": "deterministic simulation with fault injection: compare sessions (drc -C, do-approve compare) under every interlock outcome and every fault kind at every dialogue position; transcript oracle + state hash of running/startup configuration before and after",
+  "technique": "deterministic simulation with fault injection: compare sessions (drc -C, do-approve compare) under every interlock outcome and every fault kind at every dialogue position (error replies also at session and show commands), drc with and without log directory; transcript oracle + state hash of running/startup configuration before and after",
   "level_text": "Compare runs with non-empty differences, missing marker, unconfigured marker, wrong hostname, and all C09 fault kinds at all positions: the device must receive no change, guard or save command (only ASA 'terminal width' inside configure terminal) and its running and startup configuration must be byte-identical afterwards.",
   "level_note": "ASA, IOS, Linux, PAN-OS and NSX.",
   "rule": "evaluations = compare sessions; non-trivial = base compare reports differences; distinct = hash(device, target, front, interlock)",
